@@ -164,6 +164,40 @@ func (c *Ctx) extraConditions(pf *popFacts, pp *pop.Population) {
 		}
 	}
 	pf.conds["K"] = kOK
+	// K2: K, and a kind whose arm of decodeValueGeneral only records an error (struct, map, array) does not go on
+	// into decodeValue's own kind switch: the panic of its default arm is reachable only through the nil edge of a
+	// d.err test that follows the decodeValueGeneral call
+	k2 := false
+	if dv := c.P.Func(load.TLPkg, "*Decoder", "decodeValue"); dv != nil && kOK {
+		trK := an.NewTracer()
+		var gen ssa.Instruction
+		for _, cs := range an.CallsNamed(dv, "(*"+load.TLPkg+".Decoder).decodeValueGeneral") {
+			gen = cs.Instr
+		}
+		var panics []ssa.Instruction
+		for _, b := range dv.Blocks {
+			for _, in := range b.Instrs {
+				if p, ok := in.(*ssa.Panic); ok {
+					panics = append(panics, p)
+				}
+			}
+		}
+		if gen != nil && len(panics) > 0 {
+			for _, i := range an.Ifs(dv) {
+				cd, ok := an.Classify(i)
+				if !ok || cd.Kind != "nil" || !strings.HasSuffix(trK.OriginString(cd.X), "tl.Decoder.err") {
+					continue
+				}
+				if !an.InstrDominates(gen, i) {
+					continue
+				}
+				if len(an.Guarded(dv, []an.Edge{cd.EdgeWhen(true)}, panics)) == 0 {
+					k2 = true
+				}
+			}
+		}
+	}
+	pf.conds["K2"] = k2
 	for _, m := range pp.Unregistered {
 		pf.conds["unregistered:"+shortPkg(m.Pkg)+"."+m.Name] = true
 	}
